@@ -4,7 +4,8 @@
 //!                                        2 deadpool-diesel (SqliteConnection); method (diesel): 0 Fast,
 //!                                        1 Verified, 2 CustomQuery, 3 CustomFunction
 //! labels: [0,h] get into hand h   [1,h,kind] interact on hand h (0 ok, 1 panic, 2 cancelled + closure returns,
-//!         3 cancelled + closure panics)   [2,h] return hand h   [3,h,flags] script the backend state of the
+//!         3 cancelled + closure panics, 4 cancelled + the closure still runs while the object is returned
+//!         and the next get() arrives - recorded as interact (2), return, get)   [2,h] return hand h   [3,h,flags] script the backend state of the
 //!         connection in hand h (bit 0 broken, bit 1 invalid / ping fails)   [5] one non-blocking get
 //! obs:    [code, x, y, status.size, status.available, has_broken calls, is_valid / ping calls (-1: not observable)]
 //!         followed by the harness' anomalies [n, (code, a)*]
@@ -387,6 +388,7 @@ where
                     let ctl = Ctl::new(None, None);
                     let (gtx, grx) = mpsc::channel::<i64>();
                     let (rtx, rrx) = mpsc::channel();
+                    let (mtx, mrx) = mpsc::channel::<Option<i64>>();
                     let tok = Token::new(&hub, 0);
                     let ctl2 = ctl.clone();
                     drop(self.rt.spawn(async move {
@@ -394,8 +396,8 @@ where
                         let out = {
                             let fut = obj.interact(move |c| {
                                 let tok = tok;
+                                let _ = mtx.send(K::read_marker(c));
                                 tok.begin();
-                                let _ = K::read_marker(c);
                                 if grx.recv().unwrap_or(0) == 1 {
                                     panic!("scripted interaction panic");
                                 }
@@ -420,6 +422,60 @@ where
                             panic!("harness cannot continue");
                         }
                     };
+                    let busy: Option<i64> = mrx.recv_timeout(TO).ok().flatten();
+                    if kind == 4 {
+                        // the cancelled closure keeps running while the object goes back to the pool and
+                        // the next get() arrives: that get has to wait for the closure (its recycle takes the
+                        // lock), it must not be served from the connection the closure still works on.
+                        // Recorded as the three labels it consists of: interact (cancelled), return, get.
+                        let p0 = obj.is_mutex_poisoned() as i64;
+                        self.hands[h] = Some(obj);
+                        self.record(vec![1, l[1], 2], 1, 0, p0);
+                        let obj = self.hands[h].take().unwrap();
+                        if run(self.rt, async move { drop(obj) }).is_none() {
+                            self.fail(25, 6, "returning the object did not finish");
+                        }
+                        self.record(vec![2, l[1]], 2, 0, 0);
+                        let pool = self.pool.clone();
+                        let (otx, orx) = mpsc::channel();
+                        drop(self.rt.spawn(async move {
+                            note_async();
+                            let r = pool.get().await;
+                            note_async();
+                            let _ = otx.send(r);
+                        }));
+                        // give the get() time to run into the busy connection
+                        let early = orx.recv_timeout(Duration::from_millis(60)).ok();
+                        let _ = gtx.send(0);
+                        if hub.wait(1, TO).is_none() {
+                            self.fail(25, 5, "cancelled closure did not finish");
+                        }
+                        let was_early = early.is_some();
+                        let got = match early {
+                            Some(r) => Some(r),
+                            None => orx.recv_timeout(TO).ok(),
+                        };
+                        match got {
+                            Some(Ok(obj)) => {
+                                let (obj, serial, is_new) = self.identify(obj);
+                                if was_early && Some(serial) == busy {
+                                    // served from the very connection the cancelled closure still works on
+                                    self.anomaly(27, serial);
+                                }
+                                self.hands[h] = Some(obj);
+                                self.record(vec![0, l[1]], 0, serial, is_new);
+                            }
+                            Some(Err(e)) => {
+                                self.fail(23, 0, &format!("get() failed: {:?}", e));
+                                self.record(vec![0, l[1]], 0, -1, 0);
+                            }
+                            None => {
+                                self.fail(25, 1, "get() did not return");
+                                self.record(vec![0, l[1]], 0, -1, 0);
+                            }
+                        }
+                        return;
+                    }
                     let _ = gtx.send(if kind == 3 { 1 } else { 0 });
                     if hub.wait(1, TO).is_none() {
                         self.fail(25, 5, "cancelled closure did not finish");
@@ -432,6 +488,16 @@ where
                     (0, obj)
                 };
                 let p = obj.is_mutex_poisoned() as i64;
+                // the flag must not depend on whether somebody holds the lock at the moment it is read
+                let p_held = {
+                    let g = obj.lock();
+                    let v = obj.is_mutex_poisoned() as i64;
+                    drop(g);
+                    v
+                };
+                if p_held != p {
+                    self.anomaly(28, p);
+                }
                 self.hands[h] = Some(obj);
                 self.record(vec![1, l[1], kind], 1, res, p);
             }
@@ -696,6 +762,10 @@ pub fn gen_case(rt: &tokio::runtime::Runtime, rng: &mut Rng, mgr: i64, maxlabels
                 en.push((vec![1, h as i64, 1], w / 2 + 2));
                 en.push((vec![1, h as i64, 2], w / 2));
                 en.push((vec![1, h as i64, 3], w / 2));
+                if !poisoned[h] {
+                    // cancelled, and the closure is still running when the object is returned and asked for again
+                    en.push((vec![1, h as i64, 4], 5));
+                }
                 en.push((vec![2, h as i64], 22));
                 for f in &flag_choices {
                     // diesel's scripted faults cannot be undone: flags only accumulate there
